@@ -571,6 +571,59 @@ func c12Script(c *Ctx, r *rand.Rand) {
 		}
 		c.distinct(hashKey(src))
 	}
+	// function-local struct types: methods of the SAME NAME on different receiver types (and a plain function of that name
+	// in an imported package would be the same) each declare a local type with the same name and different fields
+	for p := 0; p < c.pick(6, 60); p++ {
+		src, traces := c12LocalTypes(r, p)
+		res := runMain(src, true)
+		if res.Failed() {
+			c.violate(hashKey(src), "local-type program failed: "+firstLine(res.ErrString()), map[string]any{"source": src, "error": res.ErrString()})
+			continue
+		}
+		obs := map[int]string{}
+		for _, line := range strings.Split(res.Stdout, "\n") {
+			f := strings.SplitN(line, " ", 3)
+			if len(f) >= 2 && f[0] == "R" {
+				var n int
+				fmt.Sscan(f[1], &n)
+				if len(f) == 3 {
+					obs[n] = f[2]
+				} else {
+					obs[n] = ""
+				}
+			}
+		}
+		for ti, tr := range traces {
+			starts = append(starts, len(lines))
+			srcs = append(srcs, src)
+			lines = append(lines, map[string]any{"op": "reset", "id": fmt.Sprintf("localtype/%d/%d", p, ti), "zeros": tr.zeros, "types": tr.types})
+			for _, e := range tr.evs {
+				l := map[string]any{}
+				for k, v := range e {
+					l[k] = v
+				}
+				if id, ok := l["obs"]; ok {
+					v, have := obs[id.(int)]
+					if !have {
+						v = "<missing>"
+					}
+					l["got"] = v
+					delete(l, "obs")
+				}
+				for _, k := range []string{"f", "val", "of", "m", "got", "nfields", "var"} {
+					if _, ok := l[k]; !ok {
+						if k == "val" || k == "got" {
+							l[k] = ""
+						} else {
+							l[k] = 0
+						}
+					}
+				}
+				lines = append(lines, l)
+			}
+		}
+		c.distinct(hashKey(src))
+	}
 	// host route: the same histories driven through the embedding API (NewStruct, GetAttr, SetAttr, values
 	// passed to and returned from script functions)
 	nHost := c.pick(60, 1500)
@@ -809,4 +862,104 @@ func c12HostHistory(r *rand.Rand, id int) (desc string, zeros []string, evs []ma
 		}
 	}
 	return log.String(), zeros, evs, nil
+}
+
+type c12LTrace struct {
+	zeros, types []string
+	evs          []map[string]any
+}
+
+// c12LocalTypes: two receiver types whose methods have the same names; every method declares a local struct type named
+// acc with its own fields, makes an instance, writes constants to some fields and reads everything back (value, type,
+// the whole instance as text). The methods run interleaved (A.Run, B.Run, A.Run ...) so that each type is used again
+// after the other method has declared its own.
+func c12LocalTypes(r *rand.Rand, id int) (string, []c12LTrace) {
+	fieldPool := [][2]string{{"Total", "int"}, {"Total", "float64"}, {"N", "int"}, {"Label", "string"}, {"Ok", "bool"}, {"Size", "int"}, {"Size", "byte"}, {"Kind", "string"}, {"W", "float64"}}
+	pick := func() [][2]string {
+		var out [][2]string
+		seen := map[string]bool{}
+		for len(out) < 2+r.Intn(3) {
+			f := fieldPool[r.Intn(len(fieldPool))]
+			if !seen[f[0]] {
+				seen[f[0]] = true
+				out = append(out, f)
+			}
+		}
+		return out
+	}
+	tyName := map[string]string{"int": "int32", "float64": "float64", "string": "string", "bool": "bool", "byte": "uint8"}
+	zero := map[string]string{"int": "0", "float64": "0", "string": "", "bool": "false", "byte": "0"}
+	var b strings.Builder
+	b.WriteString("package main\n\ntype A struct{ X int }\n\ntype B struct{ Y int }\n\n")
+	var traces []c12LTrace
+	n := 0
+	for ti, recv := range []string{"A", "B"} {
+		fs := pick()
+		tr := c12LTrace{}
+		fmt.Fprintf(&b, "func (t *%s) Run(round int) {\n\ttype acc struct {\n", recv)
+		for _, f := range fs {
+			fmt.Fprintf(&b, "\t\t%s %s\n", f[0], f[1])
+			tr.zeros = append(tr.zeros, zero[f[1]])
+			tr.types = append(tr.types, tyName[f[1]])
+		}
+		b.WriteString("\t}\n\tx := &acc{}\n")
+		// the events of one call; the method is called twice, so they are recorded twice with their own print ids
+		for round := 0; round < 2; round++ {
+			base := n
+			_ = base
+			tr.evs = append(tr.evs, map[string]any{"op": "new", "var": round + 1, "nfields": len(fs)})
+			if round == 0 {
+				fmt.Fprintf(&b, "\tif round == 0 {\n")
+			} else {
+				fmt.Fprintf(&b, "\t} else {\n")
+			}
+			whole := make([]string, len(fs))
+			for fi, f := range fs {
+				whole[fi] = zero[f[1]]
+				fmt.Fprintf(&b, "\t\tprintln(\"R\", %d, x.%s)\n", n, f[0])
+				tr.evs = append(tr.evs, map[string]any{"op": "read", "var": round + 1, "f": fi, "obs": n})
+				n++
+				fmt.Fprintf(&b, "\t\tprintln(\"R\", %d, __type(x.%s))\n", n, f[0])
+				tr.evs = append(tr.evs, map[string]any{"op": "type", "var": round + 1, "f": fi, "obs": n})
+				n++
+			}
+			for fi, f := range fs {
+				if r.Intn(3) == 0 {
+					continue
+				}
+				lit, txt := "", ""
+				k := 1 + r.Intn(90)
+				switch f[1] {
+				case "string":
+					lit, txt = fmt.Sprintf("\"s%d\"", k), fmt.Sprintf("s%d", k)
+				case "bool":
+					lit, txt = "true", "true"
+				default:
+					lit, txt = fmt.Sprint(k), fmt.Sprint(k) // an integer constant, also for float64 and byte fields
+				}
+				fmt.Fprintf(&b, "\t\tx.%s = %s\n", f[0], lit)
+				tr.evs = append(tr.evs, map[string]any{"op": "write", "var": round + 1, "f": fi, "val": txt})
+				whole[fi] = txt
+				fmt.Fprintf(&b, "\t\tprintln(\"R\", %d, x.%s)\n", n, f[0])
+				tr.evs = append(tr.evs, map[string]any{"op": "read", "var": round + 1, "f": fi, "obs": n})
+				n++
+				fmt.Fprintf(&b, "\t\tprintln(\"R\", %d, __type(x.%s))\n", n, f[0])
+				tr.evs = append(tr.evs, map[string]any{"op": "type", "var": round + 1, "f": fi, "obs": n})
+				n++
+			}
+			// the instance as a whole: exactly the declared fields, in declaration order
+			var parts []string
+			for fi, f := range fs {
+				parts = append(parts, f[0]+":"+whole[fi])
+			}
+			fmt.Fprintf(&b, "\t\tprintln(\"R\", %d, x)\n", n)
+			tr.evs = append(tr.evs, map[string]any{"op": "method", "var": round + 1, "f": -1, "val": "&{" + strings.Join(parts, " ") + "}", "obs": n})
+			n++
+		}
+		b.WriteString("\t}\n}\n\n")
+		traces = append(traces, tr)
+		_ = ti
+	}
+	b.WriteString("func Main() {\n\ta := &A{}\n\tb := &B{}\n\ta.Run(0)\n\tb.Run(0)\n\ta.Run(1)\n\tb.Run(1)\n}\n")
+	return b.String(), traces
 }
